@@ -41,6 +41,7 @@ CONSTANTS
     EffectOf,   \* [operationId -> observable effect label]
     Methods, Spellings, MaxSpell,
     DropReadOnly, \* {} = the code; see CoreReadOnly
+    EmptyEnvCounts, \* FALSE = the code; see EnvValue
     UiModes,    \* subset of BOOLEAN: server built with SWAGGER_UI unset (FALSE) / set (TRUE)
     HdrCross,   \* TRUE: the header classes below are crossed with the documented spelling of every template
     Stacks      \* which handler stacks are in the domain:
@@ -131,14 +132,47 @@ Target(p) == JoinSlash(RawSegs(p)) \o (IF p.q THEN "?x=1" ELSE "")
 (* HTTPReadOnly field: nothing to configure, the API is read-write by      *)
 (* construction; primev hard-codes HTTPEnabled = false.)  "direct" = the   *)
 (* harness hands kprapi its own Config (no supply path).                   *)
-(* cfg = what the operator wrote for HTTPReadOnly: "unset" | "true" |      *)
-(* "false"; HTTPEnabled = true throughout (else there is no API).          *)
+(* HTTPEnabled = true throughout (else there is no API).                   *)
 (***************************************************************************)
 Flavours == {"gnosis", "shutterservice"}
 \* <flavour>.Config.SetDefaultValues: c.HTTPReadOnly = true (gnosis/config.go, shutterservice/config.go)
 DefaultReadOnly(f) == TRUE
-\* the flavour Config after defaults + operator file: what the operator configured
-ConfiguredReadOnly(f, cfg) == IF cfg = "unset" THEN DefaultReadOnly(f) ELSE cfg = "true"
+
+(***************************************************************************)
+(* The flavour Config comes out of the configuration pipeline of the       *)
+(* command (medley/configuration/command: Build -> RunE -> ParseCLI ->     *)
+(* ParseViper): viper reads the TOML file named by --config, every field   *)
+(* is bound to two environment variables (legacy <COMMAND>_<FIELD> and     *)
+(* SHUTTER_<PATH>), SetDefaultValuesRecursive fills what the user did not  *)
+(* provide, viper.Unmarshal decodes weakly (strconv.ParseBool for bools).  *)
+(* src = [file, env, name]: what the operator wrote for HTTPReadOnly --    *)
+(*   file \in {"absent", "true", "false"}   line in the TOML file           *)
+(*   env  \in {"absent", "true", "false", "empty", "garbage"}  variable     *)
+(*   name \in {"generic", "legacy", "-"}    which of the two variables      *)
+(* Precedence as found in the code: environment over file over default; a  *)
+(* variable that exists but is EMPTY is not set (viper's AllowEmptyEnv is  *)
+(* off).  Named alternative (NOT the code) EmptyEnvCounts = TRUE: the      *)
+(* empty variable is a value, "" decodes weakly to false.                  *)
+(***************************************************************************)
+Sources ==
+    {s \in [file : {"absent", "true", "false"}, env : {"absent", "true", "false", "empty", "garbage"},
+            name : {"generic", "legacy", "-"}] : (s.env = "absent") <=> (s.name = "-")}
+NoSource == [file |-> "-", env |-> "-", name |-> "-"]
+\* viper.Get: first bound variable that is set (and not empty)
+EnvValue(src) ==
+    IF src.env = "absent" THEN "unset"
+    ELSE IF src.env = "empty" THEN (IF EmptyEnvCounts THEN "false" ELSE "unset")
+    ELSE src.env
+Resolved(src) ==
+    IF EnvValue(src) # "unset" THEN EnvValue(src)
+    ELSE IF src.file # "absent" THEN src.file ELSE "default"
+\* viper.Unmarshal: a string that strconv.ParseBool refuses is an error, the command does not start
+ParseOK(src) == Resolved(src) # "garbage"
+\* the flavour Config the command hands to the keyper
+ConfiguredReadOnly(f, src) ==
+    CASE Resolved(src) = "true" -> TRUE
+      [] Resolved(src) = "false" -> FALSE
+      [] OTHER -> DefaultReadOnly(f)
 \* <flavour>.NewKeyper: `HTTPReadOnly: kpr.config.HTTPReadOnly` in the kprconfig.Config literal -- the
 \* identity for every flavour.  Named alternative (NOT the code): flavours in DropReadOnly lose the
 \* line, the core config keeps the zero value.
@@ -147,8 +181,7 @@ CoreReadOnly(f, ro) == IF f \in DropReadOnly THEN FALSE ELSE ro
 GetEnableWriteOperations(httpEnabled, httpReadOnly) == httpEnabled /\ ~httpReadOnly
 \* the setting the gate of a server built through flavour f works with
 FlavourWrite(f, cfg) == GetEnableWriteOperations(TRUE, CoreReadOnly(f, ConfiguredReadOnly(f, cfg)))
-\* the setting the property speaks about: what the operator configured
-ConfiguredWrite(f, cfg) == ~ConfiguredReadOnly(f, cfg)
+\* (cfg below is a src record)
 
 (***************************************************************************)
 (* Request headers and body.  h = [accept, ctype, override, body]; "-" =   *)
